@@ -111,7 +111,8 @@ func (m model) apply(op int) model {
 }
 
 type history struct {
-	Ops []int `json:"ops"`
+	Ops     []int `json:"ops"`
+	Corrupt []int `json:"corrupt,omitempty"` // entries (by index) whose log message cannot be decompressed: the replicator skips them
 }
 
 func (h history) String() string {
@@ -119,8 +120,15 @@ func (h history) String() string {
 	for _, o := range h.Ops {
 		s = append(s, opName[o])
 	}
-	return strings.Join(s, ";")
+	out := strings.Join(s, ";")
+	if len(h.Corrupt) > 0 {
+		out += fmt.Sprintf(" corrupt-entries=%v", h.Corrupt)
+	}
+	return out
 }
+
+// corrupt: the entries of the running history that are garbage on the log (they hold no row and must never show up)
+var corrupt = map[int]bool{}
 
 // ---------------------------------------------------------------------------------------------------
 // the node
@@ -202,6 +210,9 @@ func (n *node) close() {
 }
 
 func entryMsg(k int) []byte {
+	if corrupt[k] {
+		return []byte{0xff, 0xfe, 0xfd, byte(k), 0x00, 0x01, 0x02, 0x03} // not a snappy stream
+	}
 	t := entryTarget[k]
 	rows, err := vbox.Block([]vbox.Point{{Metric: t[0], Tags: map[string]string{"host": t[1]}, Field: "f", Type: "sum", Value: math.Pow(3, float64(k)), Timestamp: baseTime + 5000}})
 	if err != nil {
@@ -461,6 +472,10 @@ func classify(h history) string {
 }
 
 func runHistory(rep *vevid.Report, h history) {
+	corrupt = map[int]bool{}
+	for _, k := range h.Corrupt {
+		corrupt[k] = true
+	}
 	scen := "class=" + classify(h) + " history=" + h.String()
 	viol := func(clause, site, detail string) {
 		rep.Violate(vevid.Violation{Clause: clause, Scenario: scen, Site: site, Detail: detail, Replay: h})
@@ -553,7 +568,7 @@ func runHistory(rep *vevid.Report, h history) {
 	}
 	for k := 0; k < maxEntries; k++ {
 		want := 0
-		if k < acked.Appended {
+		if k < acked.Appended && !corrupt[k] {
 			want = 1
 		}
 		if got[k] != want {
@@ -647,7 +662,13 @@ func recoverImage(rep *vevid.Report, h history, p *vcrashfs.Point, nt note) {
 	}
 	// 1. the log's acknowledged position never runs ahead of the sequence stored with the flushed data
 	ack, stored, app := n.cgAck(), n.storedSeq(), n.appended()
-	if ack > stored {
+	// (a log entry that cannot be decompressed holds no write: the replicator acknowledges it when it is the next one
+	// after the acknowledged position - such entries directly above the stored sequence do not count)
+	allowed := stored
+	for corrupt[int(allowed+1)] {
+		allowed++
+	}
+	if ack > allowed {
 		viol("ack-ahead-of-stored-sequence", "replica.localReplicator / tsdb.dataFamily.Flush",
 			fmt.Sprintf("after restart the WAL consumer group is acknowledged up to %d but the flushed data carries sequence %d", ack, stored))
 	}
@@ -685,6 +706,9 @@ func recoverImage(rep *vevid.Report, h history, p *vcrashfs.Point, nt note) {
 			lo, hi = 1, 1
 		} else if k == nt.Acked.Appended && nt.InFlight == opAppend {
 			lo, hi = 0, 1
+		}
+		if corrupt[k] {
+			lo, hi = 0, 0
 		}
 		if got[k] < lo {
 			viol("entry-lost", "node", fmt.Sprintf("entry %d (%s{host=%s}) was appended before the crash but a query after recovery and replay does not contain it (ack %d, stored sequence %d, appended %d)", k, entryTarget[k][0], entryTarget[k][1], ack, stored, app))
@@ -786,15 +810,21 @@ const (
 )
 
 var curated = []history{
-	{[]int{A, R, M, I, D}},
-	{[]int{A, A, R, R, M, I, D, G, O, A, R}},
-	{[]int{A, R, M, A, R, I, D}},          // a new series arrives between the metadata flush and the data flush
-	{[]int{A, A, A, R, M, R, R, I, D, G}}, // a new metric (entry 2) replicated after the metadata flush, flushed with the data
-	{[]int{A, R, M, I, A, A, R, R, D, G}}, // new series and new metric after metadata AND index flush
-	{[]int{A, R, M, I, D, A, R, M, I, D, G, O}},
-	{[]int{A, A, R, M, I, D, R, O, M, I, D}},
-	{[]int{A, R, O, A, R, M, I, D, G, A, R}},
-	{[]int{A, A, A, A, R, R, R, R, M, I, D, G, A, R, M, I, D, G}},
+	// a corrupt log entry (cannot be decompressed) behind a good, still unflushed one: skipping it must not
+	// acknowledge what is not flushed yet
+	{Ops: []int{A, A, R, R}, Corrupt: []int{1}},
+	{Ops: []int{A, A, R, R, M, I, D}, Corrupt: []int{1}},
+	{Ops: []int{A, R, M, I, D, A, A, R, R, G, O}, Corrupt: []int{2}},
+	{Ops: []int{A, A, A, R, R, R, M, I, D}, Corrupt: []int{0, 2}},
+	{Ops: []int{A, R, M, I, D}},
+	{Ops: []int{A, A, R, R, M, I, D, G, O, A, R}},
+	{Ops: []int{A, R, M, A, R, I, D}},          // a new series arrives between the metadata flush and the data flush
+	{Ops: []int{A, A, A, R, M, R, R, I, D, G}}, // a new metric (entry 2) replicated after the metadata flush, flushed with the data
+	{Ops: []int{A, R, M, I, A, A, R, R, D, G}}, // new series and new metric after metadata AND index flush
+	{Ops: []int{A, R, M, I, D, A, R, M, I, D, G, O}},
+	{Ops: []int{A, A, R, M, I, D, R, O, M, I, D}},
+	{Ops: []int{A, R, O, A, R, M, I, D, G, A, R}},
+	{Ops: []int{A, A, A, A, R, R, R, R, M, I, D, G, A, R, M, I, D, G}},
 }
 
 func main() {
